@@ -17,6 +17,8 @@ type GenOpts struct {
 	PIgnored                                    int
 	MaxDeps                                     int
 	PDisposable                                 int // probability an output type is a D type
+	PReuseType                                  int // probability an output reuses a concrete type already produced elsewhere
+	PSingleIface                                int // single-return constructor declared with an interface result type
 
 	// lifetimes weights (singleton, scoped, transient)
 	WLife [3]int
@@ -57,12 +59,13 @@ func defaultGen() GenOpts {
 		PMulti:  120, PResult: 120, PVoid: 60, PInstance: 60, PErrForm: 400,
 		PName: 150, PGroup: 200, PAs: 200, PAs2: 250,
 		PParamObj:  400,
-		PResultKey: 250, PResultGroup: 0, PResultIface: 250,
+		PResultKey: 250, PResultGroup: 150, PResultIface: 250,
 		PBuiltinDep: 100, PGroupDep: 300, POptionalMissing: 100, PIgnored: 60,
 		MaxDeps:     3,
 		PDisposable: 500,
-		WLife:       [3]int{3, 4, 3},
-		MinTasks:    1, MaxTasks: 3, MaxOps: 8,
+		PReuseType:  150, PSingleIface: 120,
+		WLife:    [3]int{3, 4, 3},
+		MinTasks: 1, MaxTasks: 3, MaxOps: 8,
 		WOp:                [8]int{0, 10, 3, 4, 2, 1, 1, 0},
 		PProbeUnregistered: 80,
 		PShuffleRegs:       500,
@@ -76,8 +79,8 @@ func defaultGen() GenOpts {
 		NoScopedInitSingle: false,
 		NoMultiAs:          false,
 		// still owned by C04 (see propGen)
-		NoMultiOpts:    true,
-		NoResultGroup:  true,
+		NoMultiOpts:    false,
+		NoResultGroup:  false,
 		NoOptionalFail: true,
 	}
 }
@@ -139,6 +142,19 @@ func (g *gen) genConfig() *Config {
 			base, span = 0, NT-2
 		}
 		k := g.n(StCfg, span)
+		if g.p(StCfg, o.PReuseType) {
+			// deliberately reuse a type another registration already produces: the
+			// identities then differ only by name / group / alias
+			var used []int
+			for j := 0; j < span; j++ {
+				if usedConcrete[base+j] {
+					used = append(used, base+j)
+				}
+			}
+			if len(used) > 0 {
+				return TypeRef(used[g.n(StCfg, len(used))])
+			}
+		}
 		for j := 0; j < span; j++ {
 			idx := base + (k+j)%span
 			if !usedConcrete[idx] {
@@ -196,6 +212,9 @@ func (g *gen) genConfig() *Config {
 					out.Group = groupPool[g.n(StCfg, len(groupPool))]
 				}
 			}
+			if (r.Form == FSingle || r.Form == FSingleErr) && g.p(StCfg, o.PSingleIface) {
+				out.T = ifaceRef(g.n(StCfg, NI))
+			}
 			r.Outs = append(r.Outs, out)
 		}
 		// options
@@ -223,6 +242,9 @@ func (g *gen) genConfig() *Config {
 					r.Group = groupPool[g.n(StCfg, len(groupPool))]
 				}
 			}
+		}
+		if len(r.Outs) == 1 && r.Outs[0].T.IsIface() {
+			r.As = nil // the declared result type is already an interface; As would need it to implement another one
 		}
 		// make non-group identities unique unless a duplicate is wanted
 		wantDup := g.p(StCfg, o.PDup)
